@@ -489,7 +489,7 @@ def rule_r7(prog, res):
             inner = parent(inner)
         stop = parent(inner) if parent(inner) is not None else f.node
         guardspec.check(res, 'R7', f, y, 'the selection of methods that get '
-                        'schema elements', allowed=[('_.aux is None', True)],
+                        'schema elements', allowed=[('method.aux is None', True)],
                         key='XmlSchema.add_missing_elements_for_methods|'
                         'selection')
 
